@@ -2148,3 +2148,112 @@ Example rc_read_tokens :
 Proof. vm_compute. split; reflexivity. Qed.
 
 End RcExample.
+
+(* ---- a second instance: interleaved layout, then a segment without data objects ---- *)
+
+Section RcExample2.
+Import String.
+Local Open Scope string_scope.
+
+(* An interleaved segment (ToC 46 = metadata + new object list + raw data +
+   interleaved): channel "a" int16 and channel "b" bool, 3 values each, stored
+   as 3 rows of 3 bytes; then a metadata-only segment (ToC 6) that starts a new
+   object list holding just the group object with a property: no data objects,
+   empty raw data block. *)
+Definition rc2_file : list fseg :=
+  [ mkFseg 46 4713
+      (Some [ mkEntry (hex "2f2767272f276127") (IFull 20 2 1 3 None) [];
+              mkEntry (hex "2f2767272f276227") (IFull 20 T_BOOL 1 3 None) [] ])
+      (hex "010201030400050601");
+    mkFseg 6 4713
+      (Some [ mkEntry (hex "2f276727") INoData [mkProp (hex "6e") T_STRING (hex "6869")] ])
+      [] ].
+
+Definition rc2_st : rstate := match sm_run rc2_file false with Ok st => st | Err _ => rstate0 end.
+Definition rc2_h : hierarchy :=
+  match build_hierarchy (rs_om rc2_st) with Ok h => h | Err _ => mkHier [] [] end.
+
+Definition rc2_obj_a : sobj := mkSobj rc_path_a true 3 6 (Some 2) None.       (* int16 x 3 *)
+Definition rc2_obj_b : sobj := mkSobj rc_path_b true 3 3 (Some T_BOOL) None.  (* bool x 3 *)
+
+Definition rc2_rows : list (list bytes) :=
+  [ [hex "0102"; hex "01"]; [hex "0304"; hex "00"]; [hex "0506"; hex "01"] ].
+
+Definition rc2_chunks : list (list chunk) :=
+  [ [ [(rc_path_a, CData [hex "0102"; hex "0304"; hex "0506"]);
+       (rc_path_b, CData [hex "01"; hex "00"; hex "01"])] ];
+    [] ].
+
+Example rc2_wf : wf_file rc2_file.
+Proof. unfold wf_file. vm_compute. reflexivity. Qed.
+
+Example rc2_run : sm_run rc2_file false = Ok rc2_st.
+Proof. vm_compute. reflexivity. Qed.
+
+Example rc2_hier : build_hierarchy (rs_om rc2_st) = Ok rc2_h.
+Proof. vm_compute. reflexivity. Qed.
+
+Lemma rc_seg_interleaved g data dobjs nv m rows chunks :
+  data_objs (sg_objs g) = dobjs ->
+  seg_layout g = Ok LInterleaved ->
+  dobjs <> [] -> 0 < nv -> 0 <= m ->
+  Forall (fun o => so_nvals o = nv /\ so_dsize o = so_nvals o * size_or0 o) dobjs ->
+  Forall (fun o => sized o <> None) dobjs ->
+  nodupb (map so_path dobjs) = true ->
+  Forall (row_ok dobjs) rows ->
+  Z.of_nat (List.length rows) = nv * m ->
+  data = enc_rows (toc_endian (sg_toc g)) dobjs rows ->
+  chunks = [cols_of dobjs rows] ->
+  seg_encodes g data chunks.
+Proof.
+  intros <- H1 H2 H3 H4 H5 H6 H7 H8 H9 H10 ->.
+  apply (se_interleaved g data nv m rows); try assumption. apply nodupb_sound. exact H7.
+Qed.
+
+Example rc2_encodes : segs_encode (rs_segments rc2_st) rc2_file rc2_chunks.
+Proof.
+  assert (Hsegs : rs_segments rc2_st = [nth 0 (rs_segments rc2_st) (mkSeg 0 0 0 0 false [] [] 0 None);
+                                         nth 1 (rs_segments rc2_st) (mkSeg 0 0 0 0 false [] [] 0 None)])
+    by (vm_compute; reflexivity).
+  rewrite Hsegs. clear Hsegs.
+  unfold rc2_file, rc2_chunks.
+  constructor; [|constructor; [|constructor]].
+  - eapply (rc_seg_interleaved _ _ [rc2_obj_a; rc2_obj_b] 3 1 rc2_rows).
+    + vm_compute. reflexivity.
+    + vm_compute. reflexivity.
+    + discriminate.
+    + reflexivity.
+    + discriminate.
+    + repeat constructor.
+    + repeat constructor; discriminate.
+    + vm_compute. reflexivity.
+    + unfold rc2_rows. repeat constructor.
+    + reflexivity.
+    + vm_compute. reflexivity.
+    + vm_compute. reflexivity.
+  - apply se_empty; vm_compute; reflexivity.
+Qed.
+
+Example rc2_canonical : om_paths_canonical (rs_om rc2_st).
+Proof. apply om_paths_canonical_b_sound. vm_compute. reflexivity. Qed.
+
+Example rc2_typed_channels : typed_objects_are_channels (rs_om rc2_st).
+Proof. apply typed_objects_are_channels_b_sound. vm_compute. reflexivity. Qed.
+
+Example rc2_read_correct :
+  rd_all (ser_file rc2_file) = Ok (expected_tokens rc2_st rc2_h (List.concat rc2_chunks), true).
+Proof.
+  exact (read_correct rc2_file rc2_st rc2_h rc2_chunks rc2_wf rc2_run rc2_hier rc2_encodes
+                      rc2_canonical rc2_typed_channels).
+Qed.
+
+Example rc2_read_tokens :
+  rd_all (ser_file rc2_file) =
+  Ok ([TZ 4713; TZ 0; TZ 1; TB (hex "67"); TZ 1; TB (hex "6e"); TZ 3; TB (hex "6869"); TZ 2;
+       TB (hex "61"); TB (hex "67"); TB rc_path_a; TZ 2; TZ 3; TZ 0;
+       TZ 0; TZ 3; TB (hex "0102"); TB (hex "0304"); TB (hex "0506");
+       TB (hex "62"); TB (hex "67"); TB rc_path_b; TZ 33; TZ 3; TZ 0;
+       TZ 0; TZ 3; TB (hex "01"); TB (hex "00"); TB (hex "01");
+       TZ 0; TZ 0], true).
+Proof. vm_compute. reflexivity. Qed.
+End RcExample2.
